@@ -55,15 +55,19 @@ def required_counters(tier):
         "nested_unhooked_inside_hooked": 30,
         "nested_hooked_inside_unhooked": 10,
         "pyc_files_created": 200,
-        "runs_with_cache_present": 100, "runs_with_failing_hooked_import": 20, "runs_read_only_cache": 20, "runs_with_checking_disabled": 15, "source_edits.same_mtime_other_size": 10,
+        "runs_with_cache_present": 100, "runs_with_failing_hooked_import": 20, "runs_read_only_cache": 20, "in_process_reimport": 5, "in_process_edit_and_reimport": 5, "runs_with_checking_disabled": 15, "source_edits.same_mtime_other_size": 10,
     }
 
 
 BROKEN = "brokenmod"
+SPYHELPER = "spyhelper"
 
 
 def write_forest(root, mods, versions):
     C11.write_forest(root, mods)
+    # the spy typechecker module itself imports a project module that later runs may hook
+    with open(os.path.join(root, "spychk.py"), "w") as f:
+        f.write(C11.SPY + "\nimport spyhelper  # (last: a hooked spyhelper may call back into this module while it loads)\n")
     with open(os.path.join(root, BROKEN + ".py"), "w") as f:
         f.write("def f(:\n    pass\n")  # does not compile
     for m in mods:
@@ -122,6 +126,15 @@ def gen_run(rng, mods):
     rng.shuffle(order)
     for m in order[: rng.randint(2, len(order))]:
         ops.append({"op": "import", "module": m})
+    if ops and ops[0]["op"] == "install" and rng.random() < 0.35:
+        # the hook is removed and a module is imported AGAIN in the same process (reload), sometimes after
+        # its source was edited: it must come back unmodified, and must not poison the hook's cache file
+        for o in [o for o in ops if o["op"] == "install"]:
+            ops.append({"op": "uninstall", "h": o["h"]})
+        loaded = [o["module"] for o in ops if o["op"] == "import"]
+        if loaded:
+            m = rng.choice(loaded)
+            ops.append({"op": "edit_reimport" if rng.random() < 0.5 else "reimport", "module": m})
     if rng.random() < 0.3:
         # an optional module that fails to compile, hooked or not, somewhere among the imports
         if ops and ops[0]["op"] == "install" and rng.random() < 0.7:
@@ -138,11 +151,12 @@ def run_history(rec, rng, key):
     mods = {}
     for m in sorted(chosen):
         mods[m] = {"deps": [], "kind": "pkg" if any(o.startswith(m + ".") for o in chosen) else "mod"}
+    mods[SPYHELPER] = {"deps": [], "kind": "mod"}
     names = sorted(mods)
     for i, m in enumerate(names):
         cands = names[i + 1 :]
         # imports in both directions of hooked/unhooked arise from the random hook sets
-        mods[m]["deps"] = rng.sample(cands, min(rng.choice((0, 1, 1, 2)), len(cands)))
+        mods[m]["deps"] = rng.sample([c for c in cands if c != SPYHELPER], min(rng.choice((0, 1, 1, 2)), len([c for c in cands if c != SPYHELPER]))) if m != SPYHELPER else []
     versions = {m: 1 for m in mods}
     root = tempfile.mkdtemp(prefix="jtv_c18_")
     history = []
@@ -163,6 +177,13 @@ def run_history(rec, rng, key):
                 if same_mtime:
                     rec.count("source_edits.same_mtime_other_size")
             ops = gen_run(rng, mods)
+            for o in ops:
+                if o["op"] == "edit_reimport":
+                    versions[o["module"]] += 1
+                    o["version"] = versions[o["module"]]
+                    rec.count("in_process_edit_and_reimport")
+                elif o["op"] == "reimport":
+                    rec.count("in_process_reimport")
             if any(o["op"] == "import_failing" for o in ops):
                 rec.count("runs_with_failing_hooked_import")
             before = pycs(root)
@@ -200,7 +221,7 @@ def run_history(rec, rng, key):
             if ri == 0 and not created:
                 rec.inconclusive.append("bytecode was not written in the first run: the cache is not being exercised")
                 return case
-            exp, stats = C11.expected(mods, ops)
+            exp, stats = C11.expected(mods, ops, spy_imports=SPYHELPER)
             # nested-import statistics in terms of hooked/unhooked
             for m, st in exp.items():
                 for dep in mods[m]["deps"]:
